@@ -19,7 +19,7 @@ from harness import common as C  # noqa: E402
 
 
 # properties whose Properties file depends on coq/Generated/*.v (written by harness/translate.py on every run)
-TRANSLATED = {'C04'}
+TRANSLATED = {'C04', 'C13'}
 
 
 def theorem_names(path):
